@@ -575,6 +575,11 @@ fn spawn_async_ao_list_in_task'''),
         ('prefix-cut-from-the-line-start', 'brush-core/src/completion.rs', "let offset_into_token = cursor - insertion_index;", "let offset_into_token = cursor;"),
         ('token-range-includes-one-past-the-end', 'brush-core/src/completion.rs', "else if cursor >= token.start && cursor <= token.end() {", "else if cursor >= token.start && cursor <= token.end() + 1 {"),
     ],
+    'U25': [
+        ('rest-cut-at-the-mapped-chars-length', 'brush-core/src/expansion.rs', "                    result.extend(s.chars().skip(1));", "                    result.push_str(&s[upper_char.len_utf8()..]);"),
+        ('rest-cut-at-byte-one', 'brush-core/src/expansion.rs', "                    result.extend(s.chars().skip(1));", "                    result.push_str(&s[1..]);"),
+        ('pattern-error-swallowed', 'brush-core/src/expansion.rs', "pattern.is_empty() || pattern.exactly_matches(first_char.to_string().as_str())?", "pattern.is_empty() || matches!(pattern.exactly_matches(first_char.to_string().as_str()), Ok(true))"),
+    ],
     'U16': [
         ('tilde-not-flagged-at-start', 'brush-core/src/escape.rs', "    matches!(c, '#' | '~')", "    matches!(c, '#')"),
         ('bang-not-flagged', 'brush-core/src/escape.rs', "            | '!'\n", ""),
